@@ -1899,6 +1899,10 @@ static cat_status parse_command_args(struct cat_object *self)
                         break;
                 }
                 if (is_variables_access_possible(self, self->cmd, CAT_VAR_ACCESS_WRITE_ONLY) != false) {
+                        if (strlen(get_atcmd_buf(self)) != self->length) {
+                                ack_error(self);
+                                break;
+                        }
                         self->state = CAT_STATE_PARSE_WRITE_ARGS;
                         self->position = 0;
                         self->index = 0;
